@@ -38,8 +38,12 @@ pub static VERIFIERS: Scenario = Scenario {
     stubbed: &["no network: verifiers called directly through cfg-guarded wrappers"],
 };
 
-const STRATEGIES: [&str; 10] = [
+const STRATEGIES: [&str; 12] = [
     "own", "replay-x", "x-spki-resigned", "expired", "not-yet-valid", "no-cert", "chain-own-x", "chain-x-own", "mutated-own", "mutated-x",
+    // X's certificate with a handshake signature that is junk labelled with a scheme other than Ed25519
+    "replay-x-mislabelled-signature",
+    // own key, own valid self-signature, X's SubjectPublicKeyInfo bytes inside the issuer/subject name
+    "own-with-x-spki-in-name",
 ];
 
 fn hex(p: &PeerId) -> String {
@@ -106,7 +110,8 @@ fn run(input: RunInput) -> ScenFuture {
             };
             let chain: Vec<CertificateDer<'static>> = match strat {
                 "own" | "no-cert" => vec![cert_own.clone()],
-                "replay-x" => vec![cert_x.clone()],
+                "replay-x" | "replay-x-mislabelled-signature" => vec![cert_x.clone()],
+                "own-with-x-spki-in-name" => vec![gen_cert_embedding_spki(&k_adv, &x_id.0, "sim")],
                 "x-spki-resigned" => vec![gen_cert_spki_signed_by(&kx, &k_adv, "sim")],
                 "expired" => vec![gen_cert_validity(&k_adv, "sim", 1990, 2000)],
                 "not-yet-valid" => vec![gen_cert_validity(&k_adv, "sim", 3000, 3010)],
@@ -115,10 +120,14 @@ fn run(input: RunInput) -> ScenFuture {
                 "mutated-own" => vec![mutate(&cert_own, &mut r)],
                 _ => vec![mutate(&cert_x, &mut r)],
             };
-            let adv = adv_endpoint(&w, AdvSpec {
+            let mislabel = (strat == "replay-x-mislabelled-signature").then(|| {
+                use rustls::SignatureScheme as S;
+                [S::ECDSA_NISTP256_SHA256, S::ECDSA_NISTP384_SHA384, S::RSA_PSS_SHA256, S::RSA_PKCS1_SHA256, S::ED448, S::Unknown(0x0909), S::ED25519][r.gen_range(0..7)]
+            });
+            let adv = adv_endpoint_signing(&w, AdvSpec {
                 idx: 9, port: 7100 + k as u16, chain, sign_key: k_adv, present_client_cert: strat != "no-cert",
                 idle_ms: 8_000, keep_alive_ms: Some(2_000), max_bidi: 100,
-            });
+            }, mislabel);
             w.event(format!("attempt {k}: role {role} strategy {strat}"));
             let claim_body = Bytes::from(format!("adv-claims-to-be-{}", hex(&x_id)));
             let outcome: String;
@@ -209,7 +218,7 @@ fn run(input: RunInput) -> ScenFuture {
             if role == 2 {
                 w.check(!outcome.starts_with("dial-ok"), "expected-identity-not-enforced", strat, || format!("H dialed the adversary expecting X and got {outcome}"));
             }
-            if matches!(strat, "replay-x" | "x-spki-resigned" | "chain-x-own" | "mutated-x" | "no-cert") {
+            if matches!(strat, "replay-x" | "replay-x-mislabelled-signature" | "x-spki-resigned" | "chain-x-own" | "mutated-x" | "no-cert") {
                 w.check(!(outcome.starts_with("admitted") || outcome.starts_with("dial-ok")), "forged-certificate-accepted", strat, || format!("role {role}: {outcome}"));
             }
             // (the endpoint stays alive until the end of the run: an endpoint that has forgotten a
